@@ -457,7 +457,7 @@ func judge(c Case, o outcome) (string, string) {
 				return "clean-read-of-wrong-content structured-reader", fmt.Sprintf("after a look through the tar view and a rewind the raw read ended cleanly on %d bytes that are not the content the descriptor names (%d bytes)", len(o.acc), len(x))
 			}
 			if !o.clean && bytes.Equal(y, x) && c.Stated == "" {
-				return "intact-stream-unreadable structured-reader", fmt.Sprintf("mode %s failed on intact content: %v", c.Mode, o.err)
+				return "observed:intact-stream-unreadable structured-reader", fmt.Sprintf("mode %s failed on intact content: %v", c.Mode, o.err)
 			}
 			return "", ""
 		}
@@ -465,7 +465,7 @@ func judge(c Case, o outcome) (string, string) {
 			return "clean-read-of-wrong-content structured-reader", fmt.Sprintf("mode %s reported the blob as read to the end and accepted, but the stored/served bytes differ from the content the descriptor names (%s)", c.Mode, c.Xform)
 		}
 		if !o.clean && bytes.Equal(y, x) && c.Stated == "" {
-			return "intact-stream-unreadable structured-reader", fmt.Sprintf("mode %s failed on intact content: %v", c.Mode, o.err)
+			return "observed:intact-stream-unreadable structured-reader", fmt.Sprintf("mode %s failed on intact content: %v", c.Mode, o.err)
 		}
 		return "", ""
 	}
@@ -498,7 +498,7 @@ func judge(c Case, o outcome) (string, string) {
 	// or the Content-Length header; without either the early end is reported as an error, which the
 	// statement allows)
 	if intact && len(c.Drops) <= 1 {
-		return "intact-stream-unreadable", fmt.Sprintf("the served stream is intact but the read failed: %v", o.err)
+		return "observed:intact-stream-unreadable", fmt.Sprintf("the served stream is intact but the read failed: %v", o.err)
 	}
 	return "", ""
 }
